@@ -124,8 +124,10 @@ def setup(rec, reach):
     core.wrap(B, "from_string", rec, post=_post_from_string, pre=_pre_from_string, label="BpSeq.from_string")
     core.wrap(common.MultiStrandDotBracket, "from_string", rec, post=_post_multistrand, pre=_pre_from_string, label="MultiStrandDotBracket.from_string")
     for name in ("dot_bracket", "fcfs", "all_dot_brackets", "convert_to_dot_bracket", "from_dotbracket", "_BpSeq__make_dot_bracket", "_BpSeq__stems_entries", "_BpSeq__regions"):
-        reach.add(B.__dict__[name], f"BpSeq.{name.replace('_BpSeq', '')}")
-    reach.add(common.DotBracket.__post_init__, "DotBracket.__post_init__")
+        if name in B.__dict__:  # private helpers may be refactored away: the reach map then simply has no entry for them
+            reach.add(B.__dict__[name], f"BpSeq.{name.replace('_BpSeq', '')}")
+    if "__post_init__" in common.DotBracket.__dict__:
+        reach.add(common.DotBracket.__post_init__, "DotBracket.__post_init__")
 
 
 def cases(shard, nshards, seed, tier):
@@ -281,6 +283,14 @@ def run_case(case, rec):
             return  # already recorded by the encoder monitor
         d2, why = o2d.decode(back.structure)
         rec.check("roundtrip.pairs", d2 is not None and set(d2) == set(dec), lambda: {"in": st, "out": back.structure})
+        # a notation object is a value: decoding the SAME object again (the caller's, and the one the library
+        # produced) is judged by the from_dotbracket monitor like the first time
+        for obj in (db, back, back):
+            try:
+                common.BpSeq.from_dotbracket(obj)
+            except Exception:
+                pass
+        rec.count("note:same-notation-object-decoded-again")
         return
     if fam == "multistrand":
         parts = []
@@ -335,6 +345,20 @@ def run_case(case, rec):
             getattr(b, attr)
         except Exception:
             pass  # recorded by the monitor (crash rule)
+    # the notation objects the encoders handed out (cached on b) are decoded, twice each, on half of the cases
+    if h % 2 == 0:
+        for attr in ("fcfs", "dot_bracket"):
+            if attr in vars(b) or attr == "fcfs":
+                try:
+                    obj = getattr(b, attr) if not (attr == "dot_bracket" and _max_component(f) > 14) else None
+                except Exception:
+                    obj = None
+                if obj is not None:
+                    for _ in range(2):
+                        try:
+                            common.BpSeq.from_dotbracket(obj)
+                        except Exception:
+                            pass
     # text round trip
     snap = mon2d.snapshot(b)
     text = str(b)
